@@ -6,6 +6,7 @@ mod gen_conv;
 mod msgs;
 mod nums;
 mod obs;
+mod oracles;
 #[cfg(feature = "std")]
 mod poll;
 mod scan;
@@ -152,6 +153,15 @@ fn main() {
                 let line = line.unwrap();
                 let req = line.split(" | ").next().unwrap().trim().to_string();
                 if req.is_empty() || req.starts_with('#') {
+                    continue;
+                }
+                if let Some(rest) = req.strip_prefix("oracle ") {
+                    // re-execute the oracle from its parameters when it is replayable; otherwise keep the recorded verdict
+                    let (name, detail) = rest.split_once(' ').unwrap_or((rest, ""));
+                    match oracles::oracle_eval(name, detail) {
+                        Some(v) => out.raw(&format!("{} | {}", req, v as i64)),
+                        None => out.raw(&format!("{} | {}", req, line.split(" | ").nth(1).unwrap_or("1").trim())),
+                    }
                     continue;
                 }
                 out.req(&req);
